@@ -55,7 +55,7 @@ def confirm(wt, sid, prop):
     if touches_build:
         drop_tables()
     rc1, out1 = sh("cargo test --offline --test mutation_demo 2>&1 | tail -25", cwd=wt, env=env)
-    fails_with = "test result: FAILED" in out1 or "panicked" in out1
+    fails_with = any(k in out1 for k in ("test result: FAILED", "panicked", "overflowed its stack", "SIGABRT", "signal: ", "SIGSEGV"))
     ran.append({"cmd": "cargo test --offline --test mutation_demo   (with the change)", "failed": fails_with})
     os.unlink(demo_dst)
     rc2, out2 = sh("cargo test --workspace --no-fail-fast --offline 2>&1 | grep -E '^test result|FAILED' | head -5", cwd=wt, env=env)
